@@ -38,7 +38,7 @@ def gen_kwargs(r, depth=1):
 
 def gen_alias(r, k, used):
     for _ in range(10):
-        base = r.choice([f"comp{k}", f"comp{k}", r.choice(["db", "web", "x1"])])
+        base = r.choice([f"comp{k}", f"comp{k}", f"verifmods:Comp{k}", r.choice(["db", "web", "x1"])])
         alias = base + ("/" + r.choice(["main", "second", "n_2"]) if r.random() < 0.4 else "")
         if alias not in used:
             used.add(alias)
@@ -57,7 +57,7 @@ def gen_table(r):
             for _ in range(r.choice([0, 0, 1, 1, 2])):
                 ck = r.randrange(k + 1, N)
                 alias = gen_alias(r, ck, used)
-                t = None if alias.split("/")[0] == f"comp{ck}" and r.random() < 0.5 else spell(r, ck)
+                t = None if alias.split("/")[0] in (f"comp{ck}", f"verifmods:Comp{ck}") and r.random() < 0.5 else spell(r, ck)
                 kids.append([alias, {"type": t, "kwargs": gen_kwargs(r)}])
         table[str(k)] = kids
     return table
@@ -100,7 +100,7 @@ def gen_ext(r, table, k, depth):
             ck = r.randrange(min(k + 1, N - 1), N)
             alias = gen_alias(r, ck, used)
             c = gen_kwargs(r)
-            if alias.split("/")[0] != f"comp{ck}" or r.random() < 0.5:
+            if alias.split("/")[0] not in (f"comp{ck}", f"verifmods:Comp{ck}") or r.random() < 0.5:
                 c["type"] = spell(r, ck) if r.random() > 0.06 else r.choice(["nope", "notcomp", "verifmods:Missing", 7])
             elif r.random() < 0.15:
                 c = None
